@@ -57,14 +57,49 @@ def tie_theorems_for(prop):
                 if t not in names: names.append(t)
     return names
 
+def _still_defined(c):
+    """is a `const <NAME>` item still present in the source file the generated name stands for (module = path parts of the
+    file relative to src, without `.rs`, joined by `_`)?"""
+    import os, pathlib
+    mod, name = c.rsplit('__', 1)
+    repo = os.environ.get('VERIF_REPO', '/repo')
+    src = pathlib.Path(repo) / 'src'
+    pat = re.compile(r'\b(?:const|static)\s+%s\b' % re.escape(name))
+    for p in src.rglob('*.rs'):
+        rel = p.relative_to(src).with_suffix('')
+        if '_'.join(rel.parts) == mod:
+            try:
+                return bool(pat.search(p.read_text()))
+            except OSError:
+                return False
+    return False
+
 def broken_for(prop, lean_dir):
-    """list of human-readable broken ties that concern `prop`"""
+    """(changed, missing): human-readable ties that concern `prop`. A constant whose VALUE differs from what the model and
+    the theorems assume is a broken obligation. A constant that no longer EXISTS in the source (a refactor inlined or
+    renamed it) cannot be tied by regeneration any more: that is recorded, not an alarm - the behaviour it stood for is
+    still tied by the correspondence run, whose boundary cases sit exactly on these values."""
     vals = read_generated(lean_dir)
-    out = []
+    changed = []; missing = []
     for c, (ths, props) in DEPS.items():
         if prop not in props: continue
         if c not in vals:
-            out.append('constant %s no longer found in /repo/src (Tie.%s)' % (c, ths[0]))
+            if _still_defined(c):
+                changed.append('constant %s is still defined in /repo/src but its value can no longer be extracted (Tie.%s)' % (c, ths[0]))
+            else:
+                missing.append('constant %s no longer found in /repo/src (Tie.%s not checkable)' % (c, ths[0]))
         elif vals[c] != EXPECTED[c]:
-            out.append('constant %s is now %s, the model and the theorems assume %s (Tie.%s)' % (c, vals[c], EXPECTED[c], ths[0]))
-    return out
+            changed.append('constant %s is now %s, the model and the theorems assume %s (Tie.%s)' % (c, vals[c], EXPECTED[c], ths[0]))
+    return changed, missing
+
+def present_theorems(prop, lean_dir):
+    vals = read_generated(lean_dir)
+    names = []
+    for c, (ths, props) in DEPS.items():
+        if prop in props and c in vals and vals[c] == EXPECTED[c]:
+            names += [t for t in ths if t not in names]
+    return names
+
+def any_missing(lean_dir):
+    vals = read_generated(lean_dir)
+    return [c for c in DEPS if c not in vals]
